@@ -224,7 +224,8 @@ class HtmlState:
 
 class Occurrence:
     """One output expression of a template."""
-    def __init__(self, tpl, node, ctx, detail, loopvars, line, guards=()):
+    def __init__(self, tpl, node, ctx, detail, loopvars, line, guards=(), aliases=None):
+        self.aliases = dict(aliases or {})
         self.tpl, self.node, self.ctx, self.detail, self.loopvars, self.line = tpl, node, ctx, detail, loopvars, line
         self.guards = tuple(guards)     # ((test text, polarity), ...) of the enclosing {% if %} arms
 
@@ -232,39 +233,68 @@ class Occurrence:
         return '<%s %s %s>' % (self.tpl.key, self.ctx, expr_text(self.node))
 
 
-def expr_text(n):
-    """Readable, normalised text of a jinja2 expression node."""
+def expr_text(n, aliases=None, _depth=0):
+    """Readable, normalised text of a jinja2 expression node.  `aliases` ({% set name = expr %}) are expanded."""
     from jinja2 import nodes as N
+    if aliases and _depth < 6:
+        rec = lambda x: expr_text(x, aliases, _depth)
+    else:
+        rec = None
     if isinstance(n, N.Name):
+        if aliases and n.name in aliases and _depth < 6:
+            return expr_text(aliases[n.name], aliases, _depth + 1)
         return n.name
+    _et = lambda x: expr_text(x, aliases, _depth)
     if isinstance(n, N.Getattr):
-        return '%s.%s' % (expr_text(n.node), n.attr)
+        return '%s.%s' % (_et(n.node), n.attr)
     if isinstance(n, N.Getitem):
-        return '%s[%s]' % (expr_text(n.node), expr_text(n.arg))
+        return '%s[%s]' % (_et(n.node), _et(n.arg))
     if isinstance(n, N.Const):
         return repr(n.value)
     if isinstance(n, N.Filter):
-        a = ','.join(expr_text(x) for x in n.args)
-        return '%s|%s%s' % (expr_text(n.node) if n.node is not None else '', n.name, '(%s)' % a if a else '')
+        a = ','.join(_et(x) for x in n.args)
+        return '%s|%s%s' % (_et(n.node) if n.node is not None else '', n.name, '(%s)' % a if a else '')
     if isinstance(n, N.Call):
-        return '%s(%s)' % (expr_text(n.node), ','.join(expr_text(x) for x in n.args))
+        return '%s(%s)' % (_et(n.node), ','.join(_et(x) for x in n.args))
     if isinstance(n, N.CondExpr):
-        return '(%s if %s else %s)' % (expr_text(n.expr1), expr_text(n.test), expr_text(n.expr2) if n.expr2 is not None else '')
+        return '(%s if %s else %s)' % (_et(n.expr1), _et(n.test), _et(n.expr2) if n.expr2 is not None else '')
     if isinstance(n, (N.Or, N.And)):
-        return '(%s %s %s)' % (expr_text(n.left), 'or' if isinstance(n, N.Or) else 'and', expr_text(n.right))
+        return '(%s %s %s)' % (_et(n.left), 'or' if isinstance(n, N.Or) else 'and', _et(n.right))
     if isinstance(n, N.Concat):
-        return '~'.join(expr_text(x) for x in n.nodes)
+        return '~'.join(_et(x) for x in n.nodes)
     if isinstance(n, N.Not):
-        return 'not %s' % expr_text(n.node)
+        return 'not %s' % _et(n.node)
     if isinstance(n, N.Test):
-        return '%s is %s' % (expr_text(n.node), n.name)
+        return '%s is %s' % (_et(n.node), n.name)
     if isinstance(n, (N.Add, N.Sub, N.Mul, N.Div, N.Mod)):
-        return '(%s %s %s)' % (expr_text(n.left), n.operator, expr_text(n.right))
+        return '(%s %s %s)' % (_et(n.left), n.operator, _et(n.right))
     if isinstance(n, N.Compare):
-        return '%s %s' % (expr_text(n.expr), ' '.join('%s %s' % (o.op, expr_text(o.expr)) for o in n.ops))
+        return '%s %s' % (_et(n.expr), ' '.join('%s %s' % (o.op, _et(o.expr)) for o in n.ops))
     if isinstance(n, (N.List, N.Tuple)):
-        return '[%s]' % ','.join(expr_text(x) for x in n.items)
+        return '[%s]' % ','.join(_et(x) for x in n.items)
     return type(n).__name__
+
+
+def alternatives(n, aliases=None, _depth=0):
+    """Texts of the values an output expression can take: both arms of a conditional expression / `or`, the default of |default."""
+    from jinja2 import nodes as N
+    if aliases and isinstance(n, N.Name) and n.name in aliases and _depth < 6:
+        return alternatives(aliases[n.name], aliases, _depth + 1)
+    if isinstance(n, N.CondExpr):
+        return alternatives(n.expr1, aliases, _depth) + (alternatives(n.expr2, aliases, _depth) if n.expr2 is not None else [])
+    if isinstance(n, N.Or):
+        return alternatives(n.left, aliases, _depth) + alternatives(n.right, aliases, _depth)
+    if isinstance(n, N.Filter) and n.name in ('default', 'd', 'e', 'escape', 'string', 'trim', 'safe'):
+        out = alternatives(n.node, aliases, _depth) if n.node is not None else []
+        if n.name in ('default', 'd'):
+            for a in n.args:
+                out += alternatives(a, aliases, _depth)
+        return out
+    if isinstance(n, N.Getattr) and aliases:
+        # attribute of an aliased / conditional value: distribute
+        inner = alternatives(n.node, aliases, _depth)
+        return ['%s.%s' % (i.strip('()') if i.startswith('(') and ' if ' not in i else i, n.attr) for i in inner]
+    return [expr_text(n, aliases)]
 
 
 _ENV = None
@@ -292,6 +322,8 @@ def analyse_jinja(tpl):
         raise SyntaxError('%s: %s (line %s)' % (tpl.key, e.message, e.lineno))
     occ = []
 
+    aliases = {}
+
     def walk(nodes, st, loopvars, guards=()):
         for n in nodes:
             if isinstance(n, N.Output):
@@ -300,15 +332,15 @@ def analyse_jinja(tpl):
                         st.feed(x.data)
                     else:
                         st.expr()
-                        occ.append(Occurrence(tpl, x, st.context()[0], st.context()[1], dict(loopvars), tpl.line + (x.lineno or 1) - 1, guards))
+                        occ.append(Occurrence(tpl, x, st.context()[0], st.context()[1], dict(loopvars), tpl.line + (x.lineno or 1) - 1, guards, aliases))
             elif isinstance(n, N.If):
                 branches = [n.body] + [e.body for e in n.elif_] + ([n.else_] if n.else_ else [[]])
                 tests = [n.test] + [e.test for e in n.elif_]
                 ends = []
                 for bi, b in enumerate(branches):
-                    g = guards + tuple((expr_text(t), False) for t in tests[:bi])
+                    g = guards + tuple((expr_text(t, aliases), False) for t in tests[:bi])
                     if bi < len(tests):
-                        g = g + ((expr_text(tests[bi]), True),)
+                        g = g + ((expr_text(tests[bi], aliases), True),)
                     s2 = st.copy()
                     walk(b, s2, loopvars, g)
                     ends.append(s2)
@@ -331,6 +363,8 @@ def analyse_jinja(tpl):
                     walk(n.else_, s3, loopvars, guards)
             elif isinstance(n, (N.Macro, N.CallBlock, N.FilterBlock, N.With, N.Scope, N.Block, N.AssignBlock)):
                 walk(n.body, st if not isinstance(n, (N.Macro, N.AssignBlock)) else HtmlState(), loopvars, guards)
+            elif isinstance(n, N.Assign) and isinstance(n.target, N.Name):
+                aliases[n.target.name] = n.node
             elif isinstance(n, (N.Assign, N.ExprStmt, N.Import, N.FromImport, N.Include, N.Extends, N.Continue if hasattr(N, 'Continue') else N.Assign)):
                 pass
     st = HtmlState()
@@ -363,9 +397,25 @@ class _Zpt(HTMLParser):
         HTMLParser.__init__(self, convert_charrefs=False)
         self.tpl = tpl
         self.occ = []
+        self.defs, self.repeats = {}, {}
 
     def handle_starttag(self, tag, attrs):
         line = self.tpl.line + self.getpos()[0] - 1
+        # names introduced by tal:define / tal:repeat (template-wide: TAL names are not reused with another meaning here)
+        for k, v in attrs:
+            if v is None:
+                continue
+            if k == 'tal:define':
+                for part in re.split(r'(?<!;);(?!;)', v):
+                    bits = part.strip().split(None, 2)
+                    if len(bits) >= 2 and bits[0] in ('global', 'local'):
+                        bits = bits[1:]
+                    if len(bits) >= 2:
+                        self.defs[bits[0]] = ' '.join(bits[1:]).strip()
+            elif k == 'tal:repeat':
+                bits = v.strip().split(None, 1)
+                if len(bits) == 2:
+                    self.repeats[bits[0]] = bits[1].strip()
         for k, v in attrs:
             if v is None:
                 continue
@@ -387,10 +437,25 @@ class _Zpt(HTMLParser):
     handle_startendtag = handle_starttag
 
 
+def zpt_expand(expr, defs, depth=0):
+    """A TAL path expression with names introduced by tal:define replaced by what they stand for."""
+    if depth > 4 or not expr or expr.split(':', 1)[0] in ('string', 'python', 'not', 'exists', 'nocall'):
+        return expr
+    head, sep, rest = expr.partition('/')
+    if head in defs:
+        base = zpt_expand(defs[head], defs, depth + 1)
+        return base + (sep + rest if sep else '')
+    return expr
+
+
 def analyse_zpt(tpl):
     p = _Zpt(tpl)
     p.feed(tpl.body)
     p.close()
+    for o in p.occ:
+        o.defs, o.repeats = p.defs, p.repeats
+        o.raw = o.expr
+        o.expr = ' | '.join(zpt_expand(x.strip(), p.defs) for x in o.expr.split('|')) if o.expr else o.expr
     return p.occ
 
 
